@@ -13,7 +13,10 @@ labelled streams (`gen_finding`), one known defect shape each:
                  field), nested-leaf (struct port with a nested-struct / list field in output direction), struct-wire (struct
                  wire written by field and read whole or vice versa), comp-array (list of sub-components with a struct input)
    F17 (verilog) for loop with a negative step that does not land on the bound (unsigned loop variable wraps)
-regression streams (`gen_fixed`): the shapes of defects repaired by fix: commits (F15, F16, F16b, F18, F19, F20, F21, F22, F23); expected clean.
+   F12 (verilog) the translator face of C10's F12: an implicitly sized temporary `t = i + 1` in a loop is declared with the operand width and wraps
+   F35 (both)    a chained assignment to temporaries as the ONLY statement of an else / for body: emitted without begin/end
+   F25 (yosys)   an interface that contains a list of interfaces: the grouping wires the code refers to are never declared / connected
+regression streams (`gen_fixed`): the shapes of defects repaired by fix: commits (F15, F16, F16b, F18, F19, F20, F21, F22, F23, F29, F31-F34); expected clean.
 """
 import math
 
@@ -145,6 +148,12 @@ class ExprGen:
       src = Ref(f'{base}[{self.index_of(n)}]', ew, 'elem')
     elif r < 0.30 and w == 1 and sc.vectors:
       v = rng.choice(sc.vectors)
+      if rng.random() < 0.25 and v.w >= 3:
+        # an index computed from constants, folded by the type checker (repaired defect F33)
+        p_ = rng.randint(1, max(1, int((v.w - 1) ** 0.5))); q_ = rng.randint(1, (v.w - 1) // p_)
+        ks = [t for t, val in sc.consts if t in ('s.K', 'kf') and p_ * val < v.w]
+        if ks and rng.random() < 0.5: return f'{v.text}[{p_}*{rng.choice(ks)}]', 'bit'
+        return f"{v.text}[{rng.choice([f'{p_}*{q_}', f'{p_ * q_ - 1}+1'])}]", 'bit'
       return f'{v.text}[{self.index_of(v.w)}]', 'bit'
     elif r < 0.36 and sc.vectors and self.opts.get('partsel', True):
       ps = self.part_select(w)
@@ -255,6 +264,9 @@ class ExprGen:
     if rng.random() < 0.3:
       e, _ = self.nc(w, depth - 1)
       return f'Bits{w}({e})', 'other'                          # BitsN( expression of the same width )
+    if rng.random() < 0.3:
+      e, _ = self.nc(w, depth - 1)                             # same-width zext / sext / trunc (repaired defect F32)
+      return f"{rng.choice(['zext', 'sext', 'trunc'])}({e}, {w})", 'other'
     cw = w + rng.choice([1, 3, 8])
     e, kind = self.expr(cw, depth - 1)
     return f'trunc({e}, {w})', 'other'
@@ -263,6 +275,9 @@ class ExprGen:
     """an implicit (Python int) operand that fits w bits: literal, constant attribute or closure constant"""
     rng = self.rng
     ok = [t for t, v in self.scope.consts if v < (1 << w)]
+    if w >= 4 and rng.random() < 0.15:
+      a_ = rng.randint(1, 3); b_ = rng.randint(1, 5)
+      return f'({a_}*{b_})' if rng.random() < 0.5 else f'({a_}+{b_})'      # folded by the type checker (repaired defect F33)
     if ok and rng.random() < 0.5: return rng.choice(ok)
     lv = [name for name, mx in self.scope.loopvars if mx < (1 << w)]
     if lv and rng.random() < 0.5: return rng.choice(lv)
@@ -665,19 +680,34 @@ class DesignGen:
       if w >= 4 and rng.random() < 0.5:
         # part-writes of the temporary (blocking also in update_ff blocks: repaired defect F29); the temporary must be a
         # fresh value, `t = s.x` would alias the signal object in the PyMTL simulation
-        if kind in ('sig', 'elem'): e = f'({e} | 0)'
+        e = f'({e} | 0)'      # (an if-expression or a same-width zext / trunc may return the signal or constant object itself)
         out.append(f'{tn} = {e}')
         lo = rng.randint(0, w - 2); hi = rng.randint(lo + 1, w)
         out.append(f'{tn}[{lo}:{hi}] = {eg.expr(hi - lo, 1)[0]}')
-        if self.be == 'verilog':          # yosys: an index / field of a temporary loses its name (reported as F30)
+        if True:                          # (yosys: repaired defect F30)
           k = rng.randrange(w)
           if rng.random() < 0.5: out += [f'if {eg.cond()}:', f'  {tn}[{k}] = {eg.expr(1, 1)[0]}']
           else: out.append(f'{tn}[{k}] = {eg.expr(1, 1)[0]}')
         self.features.add('tmpvar-part-write' + ('-ff' if ff else ''))
       else:
         out.append(f'{tn} = {e}')
-      scope.refs.append(Ref(tn, w, 'sig'))
+      tref = Ref(tn, w, 'sig')
+      scope.refs.append(tref)
+      if w >= 2: scope.vectors.append(tref)          # bit selects of the temporary (constant, dynamic, loop variable)
       self.features.add('tmpvar')
+      if rng.random() < 0.25:
+        # chained assignment to temporaries whose right-hand side reads the FIRST target (Python evaluates it once)
+        self.uid += 1
+        tb = f't{self.uid}'
+        if rng.random() < 0.5:
+          out.append(f"{tn} = {tb} = ({tn} {rng.choice('+^-')} {eg.nc(w, 1)[0]})")
+        else:
+          # mirror shape (repaired defect F31): the right-hand side reads the LAST target
+          out.append(f'{tb} = ({eg.nc(w, 1)[0]} | 0)')
+          out.append(f"{tn} = {tb} = ({tb} {rng.choice('+^-')} {eg.nc(w, 1)[0]})")
+          self.features.add('chained-assign-mirror')
+        scope.refs.append(Ref(tb, w, 'sig'))
+        self.features.add('chained-assign')
     if s.T[0] == 's':
       return out + self.assign_struct(c, scope, s, op, eg)
     w = s.T[1]
@@ -735,7 +765,7 @@ class DesignGen:
       eg2 = ExprGen(rng, sc2, eg.opts)
       e = eg2.expr(1, 1)[0]
       self.features.add('for-bits')
-      if rng.random() < 0.3 and self.be == 'verilog':
+      if rng.random() < (0.3 if self.be == 'verilog' else 0.12):      # yosys: rejected (AttributeError) on the current tree
         self.features.add('for-negative-step')
         if rng.random() < 0.6:
           # the loop variable as a VALUE of its own width (BitsN(i), compared / concatenated), descending
@@ -816,6 +846,10 @@ class DesignGen:
               '    s.rdy = OutPort()', '']
     for cl in self.classes: out += [cl, '']
     src = '\n'.join(out)
+    if self.rng.random() < 0.3:
+      # a module-level name equal to a loop variable: the loop variable shadows it (repaired defect F34)
+      src = src.replace('from pymtl3 import *\n', 'from pymtl3 import *\ni = 5\nj = 2\n', 1)
+      self.features.add('global-named-like-loopvar')
     import re
     wide = sorted({int(m) for m in re.findall(r'\bBits(\d+)\b', src) if int(m) > 256})
     if wide:        # `from pymtl3 import *` defines Bits1 … Bits256 only
@@ -844,17 +878,30 @@ F20 = 'F20-yosys-2d-list-of-interfaces-or-subcomponents-transposed'
 F21 = 'F21-verilog-2d-port-list-of-listed-subcomponent'
 F22 = 'F22-yosys-cast-of-compound-unparenthesised'
 F23 = 'F23-yosys-truncating-cast-selects-an-expression'
+F25 = 'F25-yosys-interface-containing-interface-list'
+F29 = 'F29-tmpvar-part-write-nonblocking-in-update-ff'
+F12 = 'F12-implicit-arithmetic-width'
+F31 = 'F31-chained-assignment-rhs-reads-last-target'
+F32 = 'F32-same-width-ext-trunc-of-compound'
+F33 = 'F33-folded-constant-recomputed-narrow'
+F34 = 'F34-loop-variable-named-like-global'
+F35 = 'F35-chained-assignment-sole-body-without-begin-end'
 
 FINDING_STREAMS = {
   # id -> (backends, expected violation kinds)
-  F10: (('yosys',), ('multi-driver', 'undriven', 'output-mismatch')),
+  F10: (('yosys',), ('multi-driver', 'undriven', 'output-mismatch', 'syntax-invalid')),
   F17: (('verilog',), ('loop-overrun', 'output-mismatch')),
+  F12: (('verilog',), ('output-mismatch',)),
+  F35: (('verilog', 'yosys'), ('output-mismatch', 'multi-driver', 'undriven')),
+  F25: (('yosys',), ('syntax-invalid', 'undriven', 'output-mismatch', 'multi-driver')),
 }
 FIXED_STREAMS = {
   # shapes of repaired defects: ordinary clean cases now
   F15: ('yosys', 'verilog'), F16: ('verilog', 'yosys'), F16B: ('verilog', 'yosys'), F18: ('verilog', 'yosys'), F19: ('yosys', 'verilog'),
   F20: ('yosys', 'verilog'), F21: ('verilog', 'yosys'), F22: ('yosys', 'verilog'),
-  F23: ('yosys', 'verilog'),     # the PyMTL simulation of these designs raises: only the validity of the emitted text is checked
+  F23: ('yosys', 'verilog'),
+  F29: ('verilog', 'yosys'),
+  F31: ('verilog', 'yosys'), F32: ('verilog', 'yosys'), F33: ('verilog', 'yosys'), F34: ('verilog', 'yosys'),     # the PyMTL simulation of these designs raises: only the validity of the emitted text is checked
 }
 
 def _hdr(): return ['from pymtl3 import *', '']
@@ -865,7 +912,7 @@ def gen_finding(rng, be, fid):
   variant = None
   L = _hdr()
   if fid == F10:
-    variant = rng.choice(['field-write', 'nested-leaf', 'struct-wire', 'comp-array'])
+    variant = rng.choice(['field-write', 'nested-leaf', 'struct-wire', 'comp-array', 'struct-tmpvar'])
     L += ['@bitstruct', 'class Fl:', f'  a: Bits{w}', f'  b: Bits{w2}', '']
     if variant == 'field-write':
       L += ['class Top( Component ):', '  def construct( s ):', f'    s.x = InPort( Bits{w} )', f'    s.y = InPort( Bits{w2} )',
@@ -886,6 +933,9 @@ def gen_finding(rng, be, fid):
       else:
         L += [f'    s.o = OutPort( Bits{w} )', '    @update', '    def up1():', '      s.w @= Fl( s.x, s.y )', '    @update', '    def up2():',
               '      s.o @= ~s.w.a', '      s.q @= s.w']
+    elif variant == 'struct-tmpvar':
+      L += ['class Top( Component ):', '  def construct( s ):', '    s.in_ = InPort( Fl )', f'    s.out = OutPort( Bits{w} )', f'    s.out2 = OutPort( Bits{w2} )',
+            '    @update', '    def up():', '      t = s.in_', '      s.out @= t.a', f"      s.out2 @= t.b {rng.choice('+^')} {rng.randint(1, (1 << w2) - 1)}"]
     else:
       L += ['class Leaf( Component ):', '  def construct( s ):', '    s.p = InPort( Fl )', f'    s.o = OutPort( Bits{w} )', '    @update',
             '    def lb():', f'      s.o @= s.p.a + {rng.randint(0, (1 << w) - 1)}', '',
@@ -992,6 +1042,51 @@ def gen_finding(rng, be, fid):
     else:
       n = (1 << w) + 1                      # the loop variable needs w+1 bits; PyMTL raises at the last iteration only
       L += ['    @update', '    def up():', '      s.o @= 0', f'      for i in range({n}):', f'        s.o @= Bits{w}( i ) + trunc( s.a, {w} )']
+  elif fid == F12:
+    n = rng.choice([4, 8])
+    W = (n - 1).bit_length() + rng.choice([1, 2])
+    L += ['class Top( Component ):', '  def construct( s ):', f'    s.a = InPort( Bits{W} )', f'    s.o = OutPort( Bits{W} )',
+          '    @update', '    def up():', '      s.o @= 0', f'      for i in range({n}):', '        t = i + 1', '        if s.a == t:', f'          s.o @= {rng.randint(1, (1 << W) - 1)}']
+    fixed_cycles = [{'.a': 0, '.reset': 0}, {'.a': n, '.reset': 0}, {'.a': rng.getrandbits(W), '.reset': 0}]      # t wraps to 0 at i = n-1
+  elif fid == F25:
+    variant = rng.choice(['top', 'subcomponent'])
+    n = rng.choice([2, 3])
+    L += ['class Inner( Interface ):', '  def construct( s ):', f'    s.msg = InPort( Bits{w} )', '    s.ack = OutPort( Bits1 )', '',
+          'class Outer( Interface ):', '  def construct( s ):', '    s.val = InPort( Bits1 )', f'    s.ch = [ Inner() for _ in range({n}) ]', '']
+    if variant == 'top':
+      L += ['class Top( Component ):', '  def construct( s ):', '    s.ifc = Outer()', f'    s.o = OutPort( Bits{w} )', '    @update', '    def up():',
+            f"      s.o @= s.ifc.ch[{n - 1}].msg {rng.choice('^&|')} s.ifc.ch[0].msg", f'      for i in range({n}):', '        s.ifc.ch[i].ack @= s.ifc.val & s.ifc.ch[i].msg[0]']
+    else:
+      L += ['class Sub( Component ):', '  def construct( s ):', '    s.ifc = Outer()', f'    s.o = OutPort( Bits{w} )', '    @update', '    def sb():',
+            f'      s.o @= s.ifc.ch[{n - 1}].msg', f'      for i in range({n}):', '        s.ifc.ch[i].ack @= s.ifc.val', '',
+            'class Top( Component ):', '  def construct( s ):', f'    s.a = InPort( Bits{w} )', f'    s.o = OutPort( Bits{w} )', '    s.c = Sub()',
+            '    s.c.ifc.val //= 1', f'    for k in range({n}):', '      s.c.ifc.ch[k].msg //= s.a', '    s.o //= s.c.o']
+  elif fid == F29:
+    W = max(w, 4) + rng.choice([0, 4])
+    lo = rng.randint(0, W - 2); hi = rng.randint(lo + 1, W)
+    L += ['class Top( Component ):', '  def construct( s ):', f'    s.a = InPort( Bits{W} )', f'    s.b = InPort( Bits{W} )', f'    s.r = OutPort( Bits{W} )',
+          '    @update_ff', '    def ff():', f"      t = s.a {rng.choice('|^+')} s.b", f'      t[{lo}:{hi}] = s.b[0:{hi - lo}]', '      s.r <<= t']
+  elif fid in (F31, F32, F33, F34, F35):
+    W = max(w, 4) + rng.choice([0, 4])
+    L += (['i = 5', ''] if fid == F34 else []) + ['class Top( Component ):', '  def construct( s ):', f'    s.a = InPort( Bits{W} )', f'    s.b = InPort( Bits{W} )',
+          '    s.c = InPort( Bits1 )', f'    s.o = OutPort( Bits{W} )', f'    s.o2 = OutPort( Bits{W} )', '    s.N = 3', '    @update', '    def up():']
+    op = rng.choice('+-^')
+    if fid == F31:
+      L += ['      v = s.b | 0', f'      w = v = v {op} {rng.randint(1, 7)}', '      s.o @= w', '      s.o2 @= v']
+    elif fid == F32:
+      f1, f2 = rng.choice(['zext', 'sext', 'trunc']), rng.choice(['zext', 'sext', 'trunc'])
+      L += [f"      s.o @= s.a & {f1}( s.a | s.b, {W} )", f"      s.o2 @= s.a ^ {f2}( s.a + s.b, {W} ) ^ s.b"]
+    elif fid == F33:
+      L += ['      s.o @= 0', '      s.o[0] @= s.a[2*s.N]', f'      s.o2 @= s.b {op} (2*s.N)']
+    elif fid == F34:
+      L += ['      s.o @= 0', f'      for i in range({W}):', f'        s.o[i] @= s.a[i] & s.b[{W - 1}-i]', '      s.o2 @= s.a']
+    else:
+      variant = rng.choice(['else', 'for'])
+      L += ['      t = s.a | 0', '      u = s.b | 0']
+      if variant == 'else':
+        L += ['      if s.c:', f'        t = s.b {op} 1', '      else:', f'        t = u = s.a {op} s.b', '      s.o @= t', '      s.o2 @= u']
+      else:
+        L += ['      for k in range(2):', f'        t = u = u {op} 1', '      s.o @= t', '      s.o2 @= u']
   elif fid == F7:
     k = rng.sample(range(1, 1 << max(w, 2)), 2)
     w = max(w, 2)
@@ -1002,6 +1097,9 @@ def gen_finding(rng, be, fid):
           '    s.x = A()', '    s.y = B()', '    s.x.in_ //= s.a', '    s.y.in_ //= s.a', '    s.o1 //= s.x.out', '    s.o2 //= s.y.out']
   else:
     raise ValueError(fid)
+  if fid == F12:
+    return {'src': '\n'.join(L) + '\n', 'label': fid, 'finding': fid, 'variant': None, 'expect': FINDING_STREAMS[fid][1],
+            'features': ['finding-stream'], 'cycles': fixed_cycles}
   if fid in FIXED_STREAMS:
     return {'src': '\n'.join(L) + '\n', 'label': 'fixed:' + fid + (':' + variant if variant else ''), 'features': ['fixed-defect-shape']}
   return {'src': '\n'.join(L) + '\n', 'label': fid + (':' + variant if variant else ''), 'finding': fid, 'variant': variant,
